@@ -161,6 +161,69 @@ def make_run_derived(W, shape, known_active=None):
     return run
 
 
+def make_run_late(W, shape, known_active=None):
+    """the outcome depends on the methods, their types and priorities -- not on what OTHER functions compared earlier in the process: a function
+    f1 with methods on two real ABCs is used, then the relation between the two classes is declared (ABC.register), then a NEW function f2
+    with the same methods is built: f2 must behave like the same function in a process that never ran f1"""
+    import abc
+
+    from ovld import Ovld
+
+    def run(ctx):
+        A = abc.ABCMeta("LA", (), {})
+        B = abc.ABCMeta("LB", (), {})
+
+        def mk():
+            LOG = []
+
+            def ha(x: A):
+                LOG.append((0,))
+                return 0
+
+            def hb(x: B):
+                LOG.append((1,))
+                return 1
+
+            def ho(x: object):
+                LOG.append((2,))
+                return 2
+            ov = Ovld()
+            order = [(ha, 0), (hb, 0), (ho, -1)]
+            if ctx.choose("reversed_registration", 2):
+                order = [order[1], order[0], order[2]]
+            for fn, p in order:
+                ov.register(fn, priority=p)
+            return ov, LOG
+        used_before = ctx.choose("another_function_used_before", 2)
+        direction = ctx.choose("registered", 3)        # 0: nothing, 1: A.register(B), 2: B.register(A)
+        if used_before:
+            # (called with an instance of a class below both: the two classes get compared with each other)
+            Both = abc.ABCMeta("LBoth", (B, A), {})
+            f1, L1 = mk()
+            for v in (A(), B(), Both()):
+                full_outcome(lambda: f1(v), L1)
+        if direction == 1:
+            A.register(B)
+        elif direction == 2:
+            B.register(A)
+        f2, L2 = mk()
+        got = [full_outcome(lambda: f2(v), L2) for v in (A(), B())]
+        # expected from the relation as it is now: the more specific class wins, unrelated classes give their own method
+        exp = []
+        for cls in (A, B):
+            app = [m for m, t in ((0, A), (1, B)) if issubclass(cls, t)]
+            if len(app) == 1:
+                exp.append(app[0])
+            else:
+                exp.append(0 if issubclass(A, B) and not issubclass(B, A) else 1 if issubclass(B, A) and not issubclass(A, B) else "AMB")
+        ok = all((g[1][0] == "AMB" and e == "AMB") or (g[0] == [e]) for g, e in zip(got, exp))
+        info = dict(family="relation declared between two functions", used_before=bool(used_before), registered=["nothing", "LA.register(LB)", "LB.register(LA)"][direction],
+                    outcomes=got, expected=exp)
+        return Verdict(ok, (), info, ["late"], nontrivial=True)
+
+    return run
+
+
 _TWO = {}
 
 
@@ -249,6 +312,8 @@ def make_run(W, shape, known_active=None):
         return make_run_two(W, shape, known_active)
     if shape.get("derived"):
         return make_run_derived(W, shape, known_active)
+    if shape.get("late"):
+        return make_run_late(W, shape, known_active)
 
     if known_active is None:
         known_active = runner.active_known_ids(PID)
@@ -394,9 +459,9 @@ def gen_shapes(tier, seed):
     rng.shuffle(kwfam)
     rng.shuffle(rich)
     if tier == "quick":
-        shapes = plain + rich[:150] + kwfam[:40] + twofam[:60] + derfam
+        shapes = plain + rich[:150] + kwfam[:40] + twofam[:60] + derfam + [dict(n=n, late=True, derived=None, arg=0)]
     else:
-        shapes = plain + rich[:260] + kwfam + twofam[:400] + derfam
+        shapes = plain + rich[:260] + kwfam + twofam[:400] + derfam + [dict(n=n, late=True, derived=None, arg=0)]
         for _ in range(40):
             shapes.append(dict(n=4, methods=rng.sample([("K", i) for i in range(4)] + [("obj",)], 4), arg=0))
     for sh in shapes:
